@@ -56,6 +56,9 @@ func caseBattle(t *testing.T, tp *simrt.Tape, c *Ctx) (res Result) {
 				return h, nil
 			}
 		}
+		// trustReturn: the driver stops only when RunCycle says so (0, or one
+		// survivor); at the cycle limit RunCycle must say 0 without effect
+		trustReturn := false
 		stepUntilEnd := func(limit int) {
 			for k := 0; k < limit && !h.dead; k++ {
 				before := h.box.sim.CycleCount()
@@ -71,7 +74,10 @@ func caseBattle(t *testing.T, tp *simrt.Tape, c *Ctx) (res Result) {
 					h.res.add("C02", "C02 refinement RunCycle return value", map[string]any{"got": ret, "want": want, "cycle": before})
 				}
 				h.observe("RunCycle", strict)
-				if ret == 0 || (len(ws) > 1 && ret == 1) || h.box.sim.CycleCount() >= h.box.sim.MaxCycles() {
+				if ret == 0 || (len(ws) > 1 && ret == 1) {
+					return
+				}
+				if !trustReturn && h.box.sim.CycleCount() >= h.box.sim.MaxCycles() {
 					return
 				}
 			}
@@ -97,8 +103,9 @@ func caseBattle(t *testing.T, tp *simrt.Tape, c *Ctx) (res Result) {
 				// property compares (DESIGN.md 8.1)
 				h.opRun()
 			}
-		default: // step to the end, then a (no-op) Run to collect the flags
-			stepUntilEnd(1 << 20)
+		default: // step until RunCycle itself reports the end
+			trustReturn = true
+			stepUntilEnd(int(cfg.ref.C) + 8)
 		}
 		if h.dead {
 			return h, nil
@@ -286,6 +293,9 @@ func caseHostile(t *testing.T, tp *simrt.Tape, c *Ctx) (res Result) {
 			if len(h.data) > 0 {
 				h.opSpawn(tp.Draw("hos.respawn", len(h.data)), genAnyField(tp, "hos.off", M))
 			}
+		}
+		if tp.Draw("hos.othersim", 12) == 0 {
+			h.opOtherSimulator()
 		}
 	}
 	h.finishDecoded(&res, "hostile")
